@@ -54,7 +54,7 @@ TReset ==
      /\ cfg' = c
      /\ out' = Start(c).out /\ lst' = Start(c).lst /\ sreg' = Start(c).sreg
      /\ reg' = Start(c).reg /\ hnd' = Start(c).hnd /\ alive' = Start(c).alive
-  /\ qlist' = <<>> /\ chD' = <<>> /\ chU' = <<>> /\ ngen' = 0
+  /\ qlist' = <<>> /\ chD' = <<>> /\ chU' = <<>> /\ ngen' = 0 /\ lost' = {} /\ zomb' = {}
   /\ cmd' = C("new", NONE, NONE) /\ evs' = <<>> /\ ret' = 0
   /\ pre' = [chU |-> <<>>, qlist |-> <<>>]
   /\ path' = <<>>
